@@ -431,6 +431,7 @@ def run_case(case):
         run_guarded(res, lambda: c04.run_memory(c, res, st2))
         P["rtlil_compared_bits"] = st2["probes"]["compared_bits"]
         P["rtlil_undefined_bits_skipped"] = st2["probes"]["undefined_bits_skipped"]
+    dig.add_events(run.events)
     nontrivial = P["port_writes"] > 0 and P["read_compares"] > 0 and any(F.values())
     return finish(res, dig, stats, nontrivial)
 
